@@ -185,7 +185,7 @@ def C_find_gates(repo, clause):
     gs = norm_guards(fn, app, stop=pos_loop)
     el = None
     for t, pol, k in gs:
-        if pol and isinstance(t, ast.Compare) and len(t.ops) == 1 and isinstance(t.ops[0], ast.Eq):
+        if isinstance(t, ast.Compare) and len(t.ops) == 1 and ((pol and isinstance(t.ops[0], ast.Eq)) or (not pol and isinstance(t.ops[0], ast.NotEq))):
             sides = [t.left, t.comparators[0]]
             subs = [s for s in sides if isinstance(s, ast.Subscript)]
             if len(subs) == 2:
@@ -210,10 +210,21 @@ def C_find_gates(repo, clause):
     if len(closeness) != 1:
         raise AnalysisError("C01: distance comparison (isclose) not found uniquely in the extension loop")
     cl = closeness[0]
-    dloops = [a for a in fn.ancestors(cl) if isinstance(a, ast.For)]
-    dl = dloops[0]
-    jvar = dl.target.id if isinstance(dl.target, ast.Name) else None
-    rr = dl.iter
+    comp = next((a for a in fn.ancestors(cl) if isinstance(a, (ast.GeneratorExp, ast.ListComp))), None)
+    quant = None
+    if comp is not None and len(comp.generators) == 1 and not comp.generators[0].ifs:
+        par = fn.parents.get(comp)
+        if isinstance(par, ast.Call) and call_name(par) in ("all", "any"):
+            quant = par
+    if quant is not None:
+        dl = comp
+        jvar = comp.generators[0].target.id if isinstance(comp.generators[0].target, ast.Name) else None
+        rr = comp.generators[0].iter
+    else:
+        dloops = [a for a in fn.ancestors(cl) if isinstance(a, ast.For)]
+        dl = dloops[0]
+        jvar = dl.target.id if isinstance(dl.target, ast.Name) else None
+        rr = dl.iter
     full = isinstance(rr, ast.Call) and call_name(rr) == "range" and ((len(rr.args) == 1 and ast.unparse(rr.args[0]) == ivar) or
                                                                       (len(rr.args) == 2 and const_value(rr.args[0]) == 0 and ast.unparse(rr.args[1]) == ivar))
     obs.append(Ob("Cgate", clause, fn, dl, full, "the distance check ranges over ALL earlier pattern positions 0 .. i-1 (%s)" % ast.unparse(rr), slot="full-prefix"))
@@ -252,8 +263,11 @@ def C_find_gates(repo, clause):
     obs.append(Ob("Cgate", clause, fn, cl, ok,
                   "pattern distance (i, j) is compared with the structure distance (atom matched to j, candidate), same metric and same power on both sides: %s" % ast.unparse(cl)[:110],
                   slot="distance-operands"))
-    # gating: either the append is guarded by the flag, whose False-definitions are guarded by (not isclose), reset per candidate
-    if flag is not None:
+    # gating: a quantified test, or a flag whose False-definitions are guarded by (not isclose), reset per candidate
+    if quant is not None:
+        direct = call_name(quant) == "all" and any(pol and any(x is quant for x in ast.walk(t)) for t, pol, k in gs)
+        obs.append(Ob("Cgate", clause, fn, app, direct, "extension is control-dependent on ALL earlier distances being within tolerance (%s)" % ast.unparse(quant)[:60], slot="distance-gate"))
+    elif flag is not None:
         defs = [n for n in fn.own_nodes() if isinstance(n, ast.Assign) and any(isinstance(t, ast.Name) and t.id == flag for t in n.targets)]
         tdefs = [d for d in defs if const_value(d.value) is True]
         fdefs = [d for d in defs if const_value(d.value) is False]
